@@ -109,7 +109,7 @@ func (m *wModel) Key() string {
 	s := &m.s
 	switch s.status {
 	case stDead:
-		return fmt.Sprintf("dead|%s|by%d", m.core(), s.deadBy)
+		return fmt.Sprintf("dead|%s|by%d@%d", m.core(), s.deadBy, s.deadPos) // calls made before and after the rejected Compile are not interchangeable
 	case stCompiled:
 		return fmt.Sprintf("compiled|%s|first%d|later%s|%v", m.core(), s.first, s.later, s.touched)
 	case stUnknown:
@@ -237,6 +237,36 @@ func (m *wModel) compileRules(opt string) (listed, unlisted []string, nviol int)
 var compileStageRules = map[string]bool{"missing-entry": true, "missing-exit": true, "cycle-in-all-predecessor-mode": true,
 	"invalid-option-combination": true, "uninferable-passthrough": true, "uninferable-passthrough-isolated": true}
 
+// addTo applies an Add*/AddInput/AddBranch call to the modelled workflow.
+func (m *wModel) addTo(n *wModel, c *Call) {
+	s := &m.s
+	switch c.Op {
+	case "wlambda":
+		switch {
+		case c.K == compose.END:
+			n.s.reserved = cap2(s.reserved)
+		case c.K == "a" && c.Pre:
+			n.s.aPre = cap2(s.aPre)
+		case c.K == "a":
+			n.s.aPlain = cap2(s.aPlain)
+		case c.K == "b":
+			n.s.bAdd = cap2(s.bAdd)
+		}
+	case "winput":
+		for i, x := range m.b.inputs {
+			if x == c {
+				n.s.in[i] = cap2(s.in[i])
+			}
+		}
+	case "wbranch":
+		for i, x := range m.b.brs {
+			if x == c {
+				n.s.br[i] = cap2(s.br[i])
+			}
+		}
+	}
+}
+
 func (m *wModel) Step(c *Call) (Model, Expect, bool) {
 	s := &m.s
 	if s.status == stUnknown {
@@ -250,6 +280,10 @@ func (m *wModel) Step(c *Call) (Model, Expect, bool) {
 	hasErr := c.IsCompile()
 	switch s.status {
 	case stDead:
+		// see cModel.Step: the model keeps following calls that have no error result
+		if !c.IsCompile() {
+			m.addTo(n, c)
+		}
 		return n, Expect{HasErr: hasErr, V: vReject, From: stDead, DeadPos: s.deadPos, DeadCompile: true, DeadRules: s.deadRules,
 			DeadOp: m.b.calls[s.deadBy].Op, DeadUnl: s.deadUnl}, true
 	case stCompiled:
@@ -260,32 +294,8 @@ func (m *wModel) Step(c *Call) (Model, Expect, bool) {
 		n.s.touched = true
 		return n, Expect{HasErr: false, From: stCompiled}, true
 	}
-	switch c.Op {
-	case "wlambda":
-		switch {
-		case c.K == compose.END:
-			n.s.reserved = cap2(s.reserved)
-		case c.K == "a" && c.Pre:
-			n.s.aPre = cap2(s.aPre)
-		case c.K == "a":
-			n.s.aPlain = cap2(s.aPlain)
-		case c.K == "b":
-			n.s.bAdd = cap2(s.bAdd)
-		}
-		return n, Expect{HasErr: false, V: vAccept, From: stLive}, true
-	case "winput":
-		for i, x := range m.b.inputs {
-			if x == c {
-				n.s.in[i] = cap2(s.in[i])
-			}
-		}
-		return n, Expect{HasErr: false, V: vAccept, From: stLive}, true
-	case "wbranch":
-		for i, x := range m.b.brs {
-			if x == c {
-				n.s.br[i] = cap2(s.br[i])
-			}
-		}
+	if !c.IsCompile() {
+		m.addTo(n, c)
 		return n, Expect{HasErr: false, V: vAccept, From: stLive}, true
 	}
 	// compile
